@@ -27,7 +27,8 @@ struct Step { args: Vec<String>, outputs: Vec<String> }
 #[derive(Clone, Debug)]
 struct Input {
     family: String,
-    /// the iteration site this input is built to exercise ("" = none in particular)
+    /// the iteration site this input is built to exercise ("" = none in particular): a tag of Model/OrderSites.v, current or historical
+    /// (the five sites repaired by commits d79165b, bba6707, c2b9bc7, eb822a9 keep their directed inputs as regression inputs)
     tag: String,
     files: Vec<(String, Vec<u8>)>,
     steps: Vec<Step>,
